@@ -211,9 +211,13 @@ class Run(DoitCmdBase):
             for task_name in self.control.selected_tasks:
                 task = self.control.tasks[task_name]
                 if task.has_subtask:
-                    for task_name in task.task_dep:
-                        sub_task = self.control.tasks[task_name]
-                        sub_task.task_dep = []
+                    # keep only the sub-tasks of a group task
+                    sub_names = [
+                        name for name in task.task_dep
+                        if self.control.tasks[name].subtask_of == task.name]
+                    for sub_name in sub_names:
+                        self.control.tasks[sub_name].task_dep = []
+                    task.task_dep = sub_names
                 else:
                     task.task_dep = []
 
